@@ -372,8 +372,18 @@ def main():
         env = dict(base_env)
         env["VERIF_REPLAY_INPUT"] = os.path.abspath(a.replay)
         test = spec.get("replay_test", "Test%sReplay" % pid)
-        p = subprocess.run([binpath, "-test.run", "^%s$" % test, "-test.count=1", "-test.v", "-test.timeout=600s"],
-                           cwd=pkgdir, env=env, stdout=subprocess.PIPE, stderr=subprocess.STDOUT, text=True)
+        rbin, rdir = binpath, pkgdir
+        # a replay file written by a stage that lives in another package (its name carries the
+        # stage's test name) is replayed by that package's "<StageTest>Replay"
+        mm = re.search(r"(Test[A-Za-z0-9_]+?)(-\d+)?\.json$", os.path.basename(a.replay))
+        if mm:
+            for st in spec["stages"]:
+                xp = st.get("pkg")
+                if st.get("test") == mm.group(1) and xp and xp != spec["pkg"] and xp in extra_bins:
+                    rbin, rdir = extra_bins[xp], os.path.join(HARNESS, "props", xp)
+                    test = st.get("replay_test", mm.group(1) + "Replay")
+        p = subprocess.run([rbin, "-test.run", "^%s$" % test, "-test.count=1", "-test.v", "-test.timeout=600s"],
+                           cwd=rdir, env=env, stdout=subprocess.PIPE, stderr=subprocess.STDOUT, text=True)
         print(p.stdout[-4000:])
         shutil.rmtree(work, ignore_errors=True)
         if "REPLAY-PASS" in p.stdout and p.returncode == 0:
